@@ -20,6 +20,14 @@ func PSels(ss ast.SelectionSet) string {
 			if s.Definition != nil && s.Definition.Type != nil {
 				ty = s.Definition.Type.Name()
 			}
+			// the gateway's own node(id: $id) { ... on T { ... } } (convertSelectionSetToNodeQuery): no alias,
+			// a definition without a type, one inline fragment
+			if s.Name == "node" && s.Alias == "" && ty == "" && len(s.SelectionSet) == 1 {
+				if fr, ok := s.SelectionSet[0].(*ast.InlineFragment); ok {
+					items = append(items, "PNode "+CoqStr(fr.TypeCondition)+" "+PSels(fr.SelectionSet))
+					continue
+				}
+			}
 			items = append(items, "PField "+CoqStr(s.Alias)+" "+CoqStr(s.Name)+" "+CoqStr(ty)+" "+PSels(s.SelectionSet))
 		case *ast.InlineFragment:
 			items = append(items, "PInline "+CoqStr(s.TypeCondition)+" "+PSels(s.SelectionSet))
